@@ -1,5 +1,5 @@
 SPEC = {
-    'module': 'EV.Props.C12',
+    'module': 'EV.Props.C12bind',
     'theorems': ['EV.Merkle.branchLength_spec', 'EV.Merkle.branchLength_errors',
                  'EV.Merkle.bar_root', 'EV.Merkle.root_spec', 'EV.Merkle.bar_fold', 'EV.Merkle.bar_length',
                  'EV.Merkle.bar_padding', 'EV.Merkle.bar_errors', 'EV.Merkle.tsc_spec',
@@ -7,10 +7,15 @@ SPEC = {
                  'EV.Merkle.from_level_errors',
                  'EV.Merkle.cache_init', 'EV.Merkle.cache_extend', 'EV.Merkle.cache_truncate',
                  'EV.Merkle.cache_source_change', 'EV.Merkle.cache_correct', 'EV.Merkle.cache_rejects',
-                 'EV.Merkle.cache_any_sequence'],
+                 'EV.Merkle.cache_any_sequence',
+                 'EV.Merkle.rfpLoop_inj', 'EV.Merkle.bar_binds', 'EV.Merkle.bar_binds_unique'],
     'suites': ['merkle'],
     'assumptions': [
         'no assumption on the hash function: the theorems are generic in H(a, b) = hash_func(a + b) and hold as equalities of terms',
+        'exception: the binding theorems (rfpLoop_inj, bar_binds, bar_binds_unique: a verifying classic proof of the natural length '
+        'determines the leaf and the branch) carry the explicit hypothesis Collisionless H (H a b = H c d -> a = c and b = d); it is '
+        'satisfied by the free term hash of the examples and is NOT claimed for double-SHA256; they go beyond the property text '
+        '(soundness of verification, not only completeness) and no check outcome depends on them',
         'cache theorems: requested lengths are within the source (length <= len(src)) and source_func(i, c) returns src[i:i+c]; '
         'initialize is called with 1 <= n <= len(src) (initialize(0) raises after having set length = 0 - outside the claim)',
         'from_level: depth_higher <= ceil(log2 n) (implied by 2^depth_higher <= n, the only case MerkleCache uses); '
